@@ -36,7 +36,7 @@ def register(R):
             p["need"],                          # and every completed outcome has been returned immediately
             "implies(old(self._eof_reached), self._eof_reached and ghost.recv_calls == old(ghost.recv_calls))",
             p0["need"],
-            "self._eof_reached == ghost.EOF",
+            "self._eof_reached == ghost.EOF", "ghost.io_errors == old(ghost.io_errors)",
         ] + [e for _n, e in cons_inv]}},
         ensures=[
             ("parser-done-on-all-pending-bytes", p["done"], "C03"),
@@ -53,7 +53,7 @@ def register(R):
                 ("eof-latched-exactly-when-the-transport-reported-it", "self._eof_reached == ghost.EOF and implies(old(self._eof_reached), self._eof_reached)", "C03"),
             ] + [(n, e, "C03") for n, e in cons_inv],
             "ConnectionAbortedError": [
-                ("end-of-stream-was-reached", "self._eof_reached and ghost.EOF", "C03"),
+                ("end-of-stream-was-reached (unless the transport itself failed with this error)", "(self._eof_reached and ghost.EOF) or ghost.io_errors != old(ghost.io_errors)", "C03"),
                 ("only-an-incomplete-frame-is-pending", p["need"], "C03"),
                 ("nothing-lost", f"{U} == {X}", "C03 C10"),
                 ("sticky: no transport call once end-of-stream was seen", "implies(old(self._eof_reached), ghost.recv_calls == old(ghost.recv_calls))", "C03"),
@@ -66,7 +66,7 @@ def register(R):
             ] + [(n, e, "C10") for n, e in cons_inv],
         },
         modifies=["self._eof_reached", "self.consumer._StreamDataConsumer__buffer", "self.consumer._StreamDataConsumer__consumer",
-                  "ghost.IN", "ghost.recv_calls", "ghost.EOF", "ghost.now"],
+                  "ghost.IN", "ghost.recv_calls", "ghost.EOF", "ghost.io_errors", "ghost.now"],
         tags="C03 C10 C11",
     )
     register_buffered(R)
@@ -123,7 +123,7 @@ def register_buffered(R):
             f"len(ghost.IN) >= len({IN0})", f"ghost.IN[:len({IN0})] == {IN0}",
             f"{U} == {X}", p["need"], p0["need"],
             "implies(old(self._eof_reached), self._eof_reached and ghost.recv_calls == old(ghost.recv_calls))",
-            "self._eof_reached == ghost.EOF", f"{C}__sizehint >= 1",
+            "self._eof_reached == ghost.EOF", "ghost.io_errors == old(ghost.io_errors)", f"{C}__sizehint >= 1",
         ] + inv}},
         ensures=[
             ("parser-done-on-all-pending-bytes", p["done"], "C03"),
@@ -138,7 +138,7 @@ def register_buffered(R):
                 ("parser-error-on-all-pending-bytes", p["err"], "C03 C06"),
                 ("remainder-kept", f"{U} == {p['rest']}", "C03 C10"), latch] + cons,
             "ConnectionAbortedError": [
-                ("end-of-stream-was-reached", "self._eof_reached and ghost.EOF", "C03"),
+                ("end-of-stream-was-reached (unless the transport itself failed with this error)", "(self._eof_reached and ghost.EOF) or ghost.io_errors != old(ghost.io_errors)", "C03"),
                 ("only-an-incomplete-frame-is-pending", p["need"], "C03"),
                 ("nothing-lost", f"{U} == {X}", "C03 C10"),
                 ("sticky: no transport call once end-of-stream was seen", "implies(old(self._eof_reached), ghost.recv_calls == old(ghost.recv_calls))", "C03"),
@@ -149,7 +149,7 @@ def register_buffered(R):
                 latch, ("never-instead-of-end-of-stream", "not self._eof_reached", "C03"),
             ] + cons,
         },
-        modifies=["self._eof_reached", B, CA, V, s, w, K, B + ".data", "ghost.IN", "ghost.recv_calls", "ghost.EOF", "ghost.now"],
+        modifies=["self._eof_reached", B, CA, V, s, w, K, B + ".data", "ghost.IN", "ghost.recv_calls", "ghost.EOF", "ghost.io_errors", "ghost.now"],
         env={"call_hints": {"recv_into": [
             ("written-region-extends-the-pending-bytes",
              f"{B}[{sp}:{sp} + {w} + result] == pre({B}[{sp}:{sp} + {w}]) + ghost.IN[len(pre(ghost.IN)):]"),
